@@ -1743,7 +1743,7 @@ func (fr *Frame) linkFuncValue(f *ssa.Function) {
 // is trusted to implement exactly that (A9).
 func (fr *Frame) modelRegexMatch(pattern string, s Val, resT types.Type, cond string, st *State) Val {
 	vc := fr.vc
-	vc.Assumed["A9: regex.Match(r, s) returns (r matches s, named groups of SOME decomposition of s along r); trusted 12-line wrapper over FindStringSubmatch"] = true
+	vc.Assumed["A9: regex.Match(r, s) returns (r matches s, named groups of SOME decomposition of s along r); at call sites with a constant pattern; the 12-line body of regex.Match is verified separately against regexp.spec"] = true
 	x := vc.term(st, s)
 	re, err := RegexToSMT(pattern)
 	if err != nil {
